@@ -16,10 +16,13 @@ EXTENDS RefTerm, ListRel, Pager, TLC, Json, IOUtils
 
 Trace == ndJsonDeserialize(IOEnv.TRACE)
 
-VARIABLES l, t, failed, txt, pend
-vars == <<l, t, failed, txt, pend>>
+VARIABLES l, t, failed, txt, pend,
+          sl        \* list bookkeeping of the oracle: why the index may be out of range (ListRel!CauseAfter) and
+                    \* the viewport of the unbroken run of draws after a selection change (ListRel!FollowAfterDraw)
+vars == <<l, t, failed, txt, pend, sl>>
 
 NoPend == [w |-> 0, h |-> 0, off |-> 0, rows |-> <<>>]
+NoSl == [cause |-> "", follow |-> <<>>]
 
 Reject(e, who, why) ==
   /\ failed' = TRUE
@@ -58,24 +61,35 @@ LstCheck(e) ==
   ELSE IF \E y \in 1..e.h : rows[y] = -2 THEN Reject(e, "lst", "row-shows-no-item")
   ELSE IF \E y \in 1..m : rows[y] < 0 THEN Reject(e, "lst", "not-contiguous")
   ELSE IF ~LayoutOK(kids, e.n, 0) THEN Reject(e, "lst", LayoutWhy(kids, e.n, 0))
-  ELSE IF e.sel /\ e.n > 0 /\ e.w > 0 /\ e.h > 0 /\ ~Visible(kids, e.idx, e.h)
-       THEN Reject(e, "lst", "selected-not-visible")
+  ELSE IF e.w > 0 /\ MustShow(e.sel, sl.follow, e.w, e.h, e.n) /\ ~Visible(kids, e.idx, e.h)
+       THEN Reject(e, "lst", ShowWhy(e.sel))
   ELSE UNCHANGED failed
+LstDraw(e) == LstCheck(e) /\ sl' = [cause |-> "", follow |-> IF e.w > 0 THEN FollowAfterDraw(e.sel, sl.follow, e.w, e.h, e.n) ELSE <<>>]
 
-OpCheck(e, who) ==
-  IF e.pan # "" THEN Reject(e, who, "panic")
-  ELSE IF ~InRange(e.n, e.idx) THEN Reject(e, who, "index-out-of-range")
-  ELSE UNCHANGED failed
+(* the classic list is handed its items: its index is in range after every operation *)
+LstOp(e) ==
+  /\ sl' = NoSl
+  /\ IF e.pan # "" THEN Reject(e, "lst", "panic")
+     ELSE IF ~InRange(e.n, e.idx) THEN Reject(e, "lst", "index-out-of-range")
+     ELSE UNCHANGED failed
+(* the builder-driven list: see ListRel!OpRangeOK *)
+DynOp(e) ==
+  /\ sl' = [cause |-> CauseAfter(sl.cause, e.op, e.n, e.idx), follow |-> <<>>]
+  /\ IF e.pan # "" THEN Reject(e, "dyn", "panic")
+     ELSE IF ~OpRangeOK(sl.cause, e.op, e.n, e.idx) THEN Reject(e, "dyn", "index-out-of-range")
+     ELSE UNCHANGED failed
 
 (* ---- vxfw/list.Dynamic ------------------------------------------------------ *)
 DynCheck(e) ==
   LET kids == [j \in 1..Len(e.kids) |-> [i |-> e.kids[j][1], row |-> e.kids[j][2], h |-> e.kids[j][3]]] IN
   IF e.pan # "" THEN Reject(e, "dyn", "panic")
-  ELSE IF ~InRange(e.n, e.idx) THEN Reject(e, "dyn", "index-out-of-range")
+  ELSE IF ~InRange(e.n, e.idx)        \* a draw is where the list learns what exists: no tolerance left
+       THEN Reject([e EXCEPT !.op = IF sl.cause = "" THEN "draw" ELSE "draw-after-" \o sl.cause], "dyn", "index-out-of-range")
   ELSE IF ~LayoutOK(kids, e.n, e.gap) THEN Reject(e, "dyn", LayoutWhy(kids, e.n, e.gap))
   ELSE IF ~OwnHeight(kids, e.hs) THEN Reject(e, "dyn", "item-height")
-  ELSE IF e.sel /\ e.n > 0 /\ e.H > 0 /\ ~Visible(kids, e.idx, e.H) THEN Reject(e, "dyn", "selected-not-visible")
+  ELSE IF MustShow(e.sel, sl.follow, e.W, e.H, e.n) /\ ~Visible(kids, e.idx, e.H) THEN Reject(e, "dyn", ShowWhy(e.sel))
   ELSE UNCHANGED failed
+DynDraw(e) == DynCheck(e) /\ sl' = [cause |-> "", follow |-> FollowAfterDraw(e.sel, sl.follow, e.W, e.H, e.n)]
 
 (* ---- widgets/pager ------------------------------------------------------------ *)
 (* pg-draw: remember what the window of h rows showed; it is judged at the  *)
@@ -96,29 +110,29 @@ PgFull(e) ==
   ELSE UNCHANGED failed
 
 (* ---- the trace ------------------------------------------------------------------ *)
-Init == l = 1 /\ t = InitTerm(1, 1, FALSE) /\ failed = FALSE /\ txt = <<>> /\ pend = NoPend
+Init == l = 1 /\ t = InitTerm(1, 1, FALSE) /\ failed = FALSE /\ txt = <<>> /\ pend = NoPend /\ sl = NoSl
 
 Next ==
   /\ l <= Len(Trace)
   /\ l' = l + 1
   /\ LET e == Trace[l] IN
      IF e.ev = "reset" THEN
-        /\ t' = InitTerm(e.rows, e.cols, FALSE) /\ failed' = FALSE /\ txt' = <<>> /\ pend' = NoPend
-     ELSE IF failed THEN UNCHANGED <<t, failed, txt, pend>>
-     ELSE IF e.ev = "lst-op" THEN OpCheck(e, "lst") /\ UNCHANGED <<t, txt, pend>>
-     ELSE IF e.ev = "dyn-op" THEN OpCheck(e, "dyn") /\ UNCHANGED <<t, txt, pend>>
-     ELSE IF e.ev = "lst-draw" THEN LstCheck(e) /\ UNCHANGED <<t, txt, pend>>
-     ELSE IF e.ev = "dyn-draw" THEN DynCheck(e) /\ UNCHANGED <<t, txt, pend>>
-     ELSE IF e.ev = "pg-init" THEN txt' = e.text /\ UNCHANGED <<t, failed, pend>>
+        /\ t' = InitTerm(e.rows, e.cols, FALSE) /\ failed' = FALSE /\ txt' = <<>> /\ pend' = NoPend /\ sl' = NoSl
+     ELSE IF failed THEN UNCHANGED <<t, failed, txt, pend, sl>>
+     ELSE IF e.ev = "lst-op" THEN LstOp(e) /\ UNCHANGED <<t, txt, pend>>
+     ELSE IF e.ev = "dyn-op" THEN DynOp(e) /\ UNCHANGED <<t, txt, pend>>
+     ELSE IF e.ev = "lst-draw" THEN LstDraw(e) /\ UNCHANGED <<t, txt, pend>>
+     ELSE IF e.ev = "dyn-draw" THEN DynDraw(e) /\ UNCHANGED <<t, txt, pend>>
+     ELSE IF e.ev = "pg-init" THEN txt' = e.text /\ UNCHANGED <<t, failed, pend, sl>>
      ELSE IF e.ev = "pg-draw" THEN
-        /\ UNCHANGED <<t, txt>>
+        /\ UNCHANGED <<t, txt, sl>>
         /\ IF e.pan # "" THEN Reject(e, "pg", "panic") /\ UNCHANGED pend
            ELSE PgRemember(e) /\ UNCHANGED failed
-     ELSE IF e.ev = "pg-full" THEN PgFull(e) /\ UNCHANGED <<t, txt, pend>>
+     ELSE IF e.ev = "pg-full" THEN PgFull(e) /\ UNCHANGED <<t, txt, pend, sl>>
      ELSE IF e.ev = "sb-draw" THEN
-        /\ UNCHANGED <<t, txt, pend>>
+        /\ UNCHANGED <<t, txt, pend, sl>>
         /\ IF e.pan # "" THEN Reject(e, "sb", "panic") ELSE UNCHANGED failed
-     ELSE t' = Step(t, e) /\ UNCHANGED <<failed, txt, pend>>
+     ELSE t' = Step(t, e) /\ UNCHANGED <<failed, txt, pend, sl>>
 
 Spec == Init /\ [][Next]_vars
 
